@@ -253,7 +253,7 @@ Section Calls.
       destruct (negb (perm_on (f_heap s) p (N.lor OpenWrite OpenLookup) (v_user v))); [apply open_post_stay|].
       rewrite Hn. cbn [create_file].
       destruct (Inv_heap_create (f_heap s) p (pi_part (sr_pi r))
-                  (NFile [] 1 (f_last_id s + 1)%N (new_meta v (file_mode (v_os v)) perm)) IH Hp2 Hn) as [H1 H2].
+                  (NFile [] 1 (f_last_id s + 1)%N (new_meta v (meta_of (f_heap s) p) (file_mode (v_os v)) perm)) IH Hp2 Hn) as [H1 H2].
       { split; auto. }
       split; cbn [fst snd].
       + split; auto.
